@@ -9,8 +9,42 @@ from vlib import *
 from net import *
 
 
+USE_TLS = False          # HttpConn wraps its socket in TLS (certificate not verified) while this is set
+
+
+def make_cert(ctx, name, cn="localhost"):
+    """A throw-away self-signed certificate + PKCS#8 key (openssl). -> (cert path, key path, sha256 of the DER cert)"""
+    import hashlib
+    import ssl
+    cert = ctx.path(name + "_cert.pem")
+    key = ctx.path(name + "_key.pem")
+    p = subprocess.run(["openssl", "req", "-x509", "-newkey", "rsa:2048", "-nodes", "-keyout", key, "-out", cert,
+                        "-subj", "/CN=" + cn, "-days", "2"], capture_output=True, text=True)
+    if p.returncode != 0:
+        raise ToolError("openssl could not create a certificate: " + p.stderr[-300:])
+    der = ssl.PEM_cert_to_DER_cert(open(cert).read())
+    return cert, key, hashlib.sha256(der).hexdigest()
+
+
+def tls_wrap(sock, server_hostname=None):
+    import ssl
+    c = ssl.SSLContext(ssl.PROTOCOL_TLS_CLIENT)
+    c.check_hostname = False
+    c.verify_mode = ssl.CERT_NONE
+    return c.wrap_socket(sock, server_hostname=server_hostname)
+
+
 def http_config(port, socket_workers=1, swarm_workers=1, keep_alive=True, max_scrape=100, max_peers=50,
-                proxy=False, header="X-Forwarded-For", mode="off", alist=None, dual=False):
+                proxy=False, header="X-Forwarded-For", mode="off", alist=None, dual=False, tls=None):
+    cfg = _http_config(port, socket_workers, swarm_workers, keep_alive, max_scrape, max_peers, proxy, header, mode,
+                       alist, dual)
+    if tls:
+        cfg["network"].update({"enable_tls": True, "tls_certificate_path": tls[0], "tls_private_key_path": tls[1]})
+    return cfg
+
+
+def _http_config(port, socket_workers, swarm_workers, keep_alive, max_scrape, max_peers, proxy, header, mode, alist,
+                 dual):
     return {
         "socket_workers": socket_workers,
         "swarm_workers": swarm_workers,
@@ -120,6 +154,10 @@ class HttpConn:
         self.sock.bind((src_ip, 0))
         self.sock.settimeout(5.0)
         self.sock.connect(server)
+        if USE_TLS:
+            # every sendall() below becomes its own TLS record, so request segmentation is preserved
+            self.sock = tls_wrap(self.sock)
+            self.sock.settimeout(5.0)
         self.src_ip = src_ip
         self.quiet = quiet
         self.buf = b""
